@@ -8,10 +8,14 @@ from vlib import log
 CASES = {
     "C16": dict(spec="CodecMC.tla", cfg="CodecMC.cfg", trace="CodecTrace.tla", tcfg="CodecTrace.cfg", drv="codecdrv", key="frame",
                 reps_quick=2, reps_thorough=40),
+    "C20": dict(spec="GatewayMC.tla", cfg="GatewayMC.cfg", trace="GatewayTrace.tla", tcfg="GatewayTrace.cfg", drv="gatewaydrv", key="frame",
+                reps_quick=3, reps_thorough=60),
 }
 
 
 def short(fr):
+    if "kind" in fr:
+        return json.dumps(fr, sort_keys=True)
     if isinstance(fr.get("body"), dict) and fr.get("raw") == "object":
         dev = {k: v for k, v in fr["body"].items() if v != "valid"}
         return "%s%s" % (fr["type"], json.dumps(dev, sort_keys=True))
@@ -55,8 +59,8 @@ def run(prop, tier, seed):
                 continue
             k = hw[i]
             e = ev[k] if k < len(ev) else {}
-            desc = "frame %s: real decoder %s%s, specification says %s" % (
-                short(e.get("frame", {})), e.get("res"), (" (" + str(e.get("panic") or e.get("note") or e.get("err"))[:120] + ")") if e.get("res") != "err" or True else "", "?")
+            obs = {k_: e[k_] for k_ in e if k_ not in ("frame", "a")}
+            desc = "case %s: the real code does not do what the specification fixes for it: observed %s" % (short(e.get("frame", {})), json.dumps(obs, sort_keys=True)[:300])
             v.classify(dict(cause="outcome", res=e.get("res"), frame=short(e.get("frame", {}))), desc, dict(scenario=dict(sc=sc, seed=seed, steps=[dict(a="Decode", frame=e.get("frame"))], opt=dict(reps=3)), event=e))
             if k + 1 < len(ev):
                 nxt.append((sc, ev[k + 1:]))
@@ -64,8 +68,8 @@ def run(prop, tier, seed):
     v.cov["traces_validated_against_impl"] = len(traces)
     v.cov["evaluations"] = nev
     v.cov["distinct_nontrivial"] = len(frames)
-    v.cov["rule"] = "every abstract frame of Codec.tla (complete enumeration by TLC), %d seeded byte-level representatives each; all are distinct cases" % reps
-    v.cov["samples"] = [dict(frame=short(e["frame"]), res=e["res"], bytes=e.get("len")) for e in traces[0]["ev"][:6]]
+    v.cov["rule"] = "every abstract case of %s (complete enumeration by TLC), %d seeded concrete representatives each; all are distinct cases" % (C["spec"], reps)
+    v.cov["samples"] = [dict(case=short(e["frame"]), observed={k_: e[k_] for k_ in e if k_ not in ("frame", "a")}) for e in traces[0]["ev"][:6]]
     v.assumptions = ["the case analysis (classes per field kind, at most two deviating fields per object, one per nested object) is the unit of exhaustiveness; "
                      "within a class bytes are sampled", "BLS group elements come from mass-core chiapos (cgo)"]
     return v.finish()
